@@ -203,10 +203,13 @@ func c04PessProgram(long bool, r *vx.Rand) {
 				if res == "ok" {
 					w.AuditHeld(a, ks)
 					for j, k := range ks {
-						switch r.Intn(4) {
+						switch r.Intn(5) {
 						case 0:
 							a.Delete(k)
 						case 1:
+						case 2:
+							// locked first, then written with the deferred-constraint-check flag: both facts hold at commit
+							a.SetLazy(k, val(0, 0, 10*i+j))
 						default:
 							a.Set(k, val(0, 0, 10*i+j))
 						}
@@ -224,6 +227,24 @@ func c04PessProgram(long bool, r *vx.Rand) {
 			}
 		} else if locked == 0 {
 			rec.Count("c04:pess-program:first-lock-failed")
+		}
+		if r.Chance(15) {
+			// a lazily checked write of a key the transaction does NOT lock (checked by the prewrite itself); locking it
+			// later clears the flag
+			var free2 [][]byte
+			for _, k := range keys {
+				if !held[string(k)] {
+					free2 = append(free2, k)
+				}
+			}
+			if len(free2) > 0 {
+				k := pick(r, free2)
+				if !step(func() { a.SetLazy(k, val(0, 5, i)) }) {
+					return
+				}
+				// (no lock call on it afterwards: a staged insert whose lock fails is cleaned up together with the flag)
+				held[string(k)] = true
+			}
 		}
 	}
 	if long && locked > 0 {
@@ -461,6 +482,12 @@ func runC04() {
 		if n%(150*thin) == 11 {
 			c04BeatFaults(genShape(r), r.Fork())
 			rec.Count("c04:family:beat-faults")
+		}
+		if n%(75*thin) == 9 {
+			// lost answer of the primary commit + split inside the batch + region errors until give-up (family of c03.go):
+			// no rollback may follow a primary commit that may have taken effect (rule 3)
+			c03Triple(r.Fork())
+			rec.Count("c04:family:triple")
 		}
 		if n%(15*thin) == 5 {
 			slowOwnerScenario(r.Fork())
